@@ -70,16 +70,21 @@ GClosed(g)   == ClosedD(GDeps(g))
 GAcyclic(g)  == IsDagD(GDeps(g))
 
 (* ---- the property, per key k of graph g, over an observation
-        o = [deps, get, exec, call, pdeps, pcall]
+        o = [deps, ldeps, kdeps, get, exec, call, pdeps, pcall]
    deps  = node.dependencies of the converted / constructed node
+   ldeps = dask.core.get_dependencies(graph, k)      kdeps = dask.core.keys_in_tasks(keys, [graph[k]])
+           (the dependency report of the graph helpers that cull / order / fuse rely on)
    get   = dask.core.get(graph, k)          exec = execute_graph(converted graph)[k]
    call  = node(values of its dependencies)
-   pdeps, pcall = the same for pickle.loads(pickle.dumps(node))                          *)
+   pdeps, pcall = the same for pickle.loads(pickle.dumps(node))
+   "A node's reported dependencies are exactly the keys it references": every report - the node's own and
+   the graph helpers' - equals RefsOf.                                                               *)
 KeyBroken(g, k, o) ==
   LET want == Val(g, k)
       refs == RefsOf(DOMAIN g, g[k])
   IN Cl2("Deps", o.deps = refs) \cup Cl2("Get", o.get = want) \cup Cl2("Exec", o.exec = want)
      \cup Cl2("Call", o.call = want) \cup Cl2("PickleDeps", o.pdeps = refs) \cup Cl2("PickleCall", o.pcall = want)
+     \cup Cl2("LegacyDeps", o.ldeps = refs /\ o.kdeps = refs)
 
 (* ---- C11: equal nodes compute equal values.
    The implementation's verdict on two nodes x, y is recorded: eq (x == y) and teq
